@@ -43,7 +43,7 @@ func checkLayerReads(c *core.Ctx, ruleVisible, rulePure string) {
 				continue
 			}
 			var below []ssa.CallInstruction
-			for _, ci := range ir.Calls(fn, func(ci ssa.CallInstruction) bool {
+			for _, ci := range ir.CallsThrough(fn, func(ci ssa.CallInstruction) bool {
 				if ci == ssa.CallInstruction(mg) {
 					return false
 				}
@@ -52,7 +52,7 @@ func checkLayerReads(c *core.Ctx, ruleVisible, rulePure string) {
 				}
 				o := ir.CalleeObj(ci)
 				return o != nil && o.Name() == "Get"
-			}) {
+			}, 2) {
 				below = append(below, ci)
 			}
 			c.Floor("reads of the layer below in "+spec.fn+" ("+ruleVisible+")", len(below), 1)
